@@ -57,6 +57,9 @@ def run(ctx):
     ctx.guarded("R09.10", "panics", server_panics)
     ctx.rule("R09.11", "the in-flight counter cannot overflow for any realistic history: it is at least 32 bits wide and the number of requests read is not narrowed before it is added")
     ctx.guarded("R09.11", "counter-width", lambda: counter_width(ctx, "R09.11"))
+    ctx.rule("R09.13", "a response handed to a connection is queued: enqueue_response pushes it on every path (= C06 R06.7) -- a response swallowed after respond() switched the connection to AwaitingOutgoing leaves write() with nothing to send, and it fails with InvalidWrite")
+    from .c06 import paths as _writer9
+    ctx.guarded("R09.13", "enqueue", lambda: _writer9(ctx, "R09.13", only={"R06.7"}))
     ctx.rule("R09.12", "a connection that can no longer be written to is released when, and not before, everything yielded from it has been answered: the counter that decides it moves only by += what read() returns and -= 1 per response (= C07 R07.6), and is_done() is Closed with that counter at 0 (= C10 R10.7)")
     from .c07 import counter
 
@@ -326,6 +329,11 @@ def counter_width(ctx, rule):
     ctx.ob(rule, "counter|overflow-exit|floor", m >= 1, "%d failing path(s) of read() inspected" % m)
 
 
+def local_callee_(t):
+    from .util import local_callee
+    return local_callee(t)
+
+
 def pairing(ctx, rule):
     facts = ctx.facts
     # insert sites
@@ -359,6 +367,7 @@ def pairing(ctx, rule):
                         if e[0] == "call" and e[1] == bb and is_connections(e[4][2][0]):
                             removers.append((f.name, bb, last_seg(p), e))
     sites = {(r[0], r[1], r[2]) for r in removers}
+    all_removers = list(removers)
     # the sweep in two steps: collect the fds of the done connections, then for each: epoll_del(fd); connections.remove(&fd)
     two_step = [r for r in removers if r[2] == "remove"]
     if two_step and all(r[2] == "remove" for r in removers):
@@ -415,6 +424,24 @@ def pairing(ctx, rule):
                 ctx.ob(rule, "remove|kept-when-not-done", done is False and not dels, "an entry that is not done is kept and not deregistered", fc.loc(lf.bb))
             else:
                 ctx.fail(rule, "remove|closure-value", "the retain closure returns something other than a literal bool on a path", fc.loc(lf.bb))
+    # ... and the reverse: a descriptor is deregistered only where its entry is dropped.  An extra epoll_del elsewhere (to
+    # silence a dead connection that is kept for late answers) makes the sweep's own epoll_del fail later, and it unwraps
+    del_sites = []
+    for f in facts.fns.values():
+        for bb, t in f.calls():
+            if (t["callee"].get("path") or "") == S + "epoll_del" or local_callee_(t) == S + "epoll_del":
+                del_sites.append((f.name, bb))
+    # the closure given to retain, or a function that removes the entry itself
+    ret_closures = set()
+    for (fname, bb, kind, e) in all_removers:
+        if kind == "retain":
+            c_ = look(e[4][2][1])
+            if c_[0] == "closure":
+                ret_closures.add(c_[1])
+    for (fname, bb) in del_sites:
+        ok = fname in ret_closures or any(r[0] == fname and r[2] != "retain" for r in all_removers)
+        ctx.ob(rule, "epoll_del|only-where-the-entry-is-dropped|%s" % fname, ok, "epoll_del is called in %s: a descriptor is deregistered only in the sweep, where its entry is dropped" % fname, facts.fn(fname).loc(bb))
+    ctx.ob(rule, "epoll_del|floor", len(del_sites) >= 1, "%d call site(s) of epoll_del" % len(del_sites))
     # lookups in requests(): by the event's fd
     fn, lv = leaves(ctx, srv.REQUESTS)
     n = 0
